@@ -292,6 +292,7 @@ class Woven:
         self.props = []
         self.preludes = []
         self.probes = []
+        self.assumes = []
 
     def add(self, text):
         for ln in text.split("\n"):
@@ -460,6 +461,9 @@ def expand(unit_path, twin=False, repo=None):
         d = s[3:].strip()
         if d.startswith("unit "):
             w.unit = d.split()[1]
+            i += 1
+        elif d.startswith("assume "):
+            w.assumes.append(d[7:])
             i += 1
         elif d.startswith("props"):
             w.props = d.split()[1:]
